@@ -53,7 +53,10 @@ impl Args {
     }
     /// number of cases: `--n` overrides, else by tier
     pub fn count(&self, quick: u64, thorough: u64) -> u64 {
-        self.n.unwrap_or(if self.thorough() { thorough } else { quick })
+        // VERIF_SCALE: set by ./check when a source file the property is anchored in has changed since the last
+        // recorded green state (source-drift escalation): the quick counts are multiplied, never beyond thorough
+        let scale: u64 = std::env::var("VERIF_SCALE").ok().and_then(|s| s.parse().ok()).unwrap_or(1).max(1);
+        self.n.unwrap_or(if self.thorough() { thorough } else { (quick * scale).min(thorough.max(quick)) })
     }
 }
 
